@@ -11,6 +11,12 @@ def kinds(*ks):
     return lambda kind, rec, case: kind in s
 
 
+def c12_relevant(kind, rec, case):
+    if kind == "fix":
+        return rec.startswith("fix root")  # the root state after posting everything
+    return panic_or({"bounds", "vbounds", "bad", "verdict"}, ["bounds", "fix"])(kind, rec, case)
+
+
 def c01_relevant(kind, rec, case):
     # every solution handed out by any entry point
     return kind in ("sol", "asol", "partial") or (kind in ("subset", "solset") and False)
@@ -60,6 +66,8 @@ def panic_or(kinds_set, scen_prefixes):
 
 
 def c01_relevant(kind, rec, case):
+    if kind == "panic" and "Expected_retrieved_integer_variable_from_solution_to_be_assigned" in rec:
+        return True  # a partial assignment was handed out as a solution
     return kind in ("sol", "asol", "partial")
 
 
@@ -97,7 +105,9 @@ def c11_relevant(kind, rec, case):
 
 
 def c18_relevant(kind, rec, case):
-    return kind in ("branchviolation", "valsel", "partial", "nonterm", "hang") or (kind == "panic" and ("Decision" in rec or "brancher" in rec.lower() or "branching" in rec or "sparse_set" in rec or "random" in rec))
+    return kind in ("branchviolation", "valsel", "partial", "nonterm", "hang") or (kind == "panic" and ("Decision" in rec or "brancher" in rec.lower() or "branching" in rec or "sparse_set" in rec or "random" in rec
+                                                                                           # the solver accepted a state with unfixed variables as a solution (the brancher proposed nothing)
+                                                                                           or "Expected_retrieved_integer_variable_from_solution_to_be_assigned" in rec))
 
 
 PROPS = {
@@ -187,8 +197,10 @@ PROPS = {
     "C12": {
         "streams": [
             {"name": "bounds", "mode": "bounds", "quick": 300, "thorough": 8000, "args": []},
+            {"name": "fixroot", "mode": "fix", "quick": 1500, "thorough": 40000, "args": []},
         ],
-        "relevant": panic_or({"bounds", "vbounds", "bad", "verdict"}, ["bounds"]),
+        "relevant": c12_relevant,
+        "lean_modules": ["Pumpkin.Model.Propagation"],
         "level_text": "Proof: bounds_enclose / view_bounds_enclose (accepted bounds enclose every solution), view_rule (AffineView bound rule with swap on negative scale is enclosing), more_constraints_fewer_solutions. Tie to code: after every posting step lower_bound/upper_bound of every variable and of random views and get_literal_value are read from the real solver: must enclose all oracle solutions, lie in the declared domain, be monotone along the sequence, and equal the view rule applied to the inner bounds.",
         "level_note": LEVEL_NOTE_COMMON,
     },
@@ -243,9 +255,10 @@ PROPS = {
             {"name": "probe", "mode": "probe", "quick": 1500, "thorough": 30000, "args": ["--probes", "200"]},
             {"name": "cumulative-probe", "mode": "probe", "quick": 1500, "thorough": 30000,
              "args": ["--kinds", "cumul", "--probes", "200"]},
+            {"name": "fix", "mode": "fix", "quick": 2500, "thorough": 60000, "args": []},
         ],
-        "relevant": panic_or({"infer", "minfer", "nogood", "bad", "implicit"}, ["tap"]),
-        "lean_modules": ["Pumpkin.Model.ImplicitReason"],
+        "relevant": panic_or({"infer", "minfer", "nogood", "bad", "implicit", "fix"}, ["tap", "fix"]),
+        "lean_modules": ["Pumpkin.Model.ImplicitReason", "Pumpkin.Model.Propagation"],
         "level_text": "Proof: implicit_reason_entails / implicit_reason_progress — Model/ImplicitReason.lean mirrors the nine arms (and assertion guards) of get_propagation_reason for predicates that are not literally on the trail; every reason it produces entails the explained predicate for ALL integer values and never contains it; tied exactly: the hook records the trail predicate next to each implicit reason and the model must produce the identical list. checkInference_iff — the acceptor for an explanation (premises -> conclusion, or -> false) is equivalent to semantic entailment from the single tagged constraint within the declared domains, hence sound AND complete (never rejects a valid explanation); accepted_propagation / accepted_conflict / never_prunes_solution / accepted_model_inference. Tie to code (hook: explanation tap): every propagation (reason computed immediately, lazy reasons included), every reported conflict, every reason handed to conflict analysis later (explicit, lazily recomputed, implicit) and every learned nogood during real searches is recorded with the propagator's tag and judged; 'all reason predicates hold in the state in which the reason is given' is evaluated inside the hook.",
         "level_note": LEVEL_NOTE_COMMON + "Enumeration limits trace acceptance to small domains; nogood-propagator reasons are judged against the whole model.",
     },
